@@ -109,7 +109,14 @@ where
     OpenClosed01: Distribution<F>,
 {
     fn sample<R: Rng + ?Sized>(&self, rng: &mut R) -> F {
-        let x: F = rng.sample(OpenClosed01);
+        // `x == 1` would give `(-ln 1)^(-1/shape) = 0^(-1/shape)`, i.e. an infinite
+        // sample: redraw (this has probability 2^-53, or 2^-24 for `f32`).
+        let x: F = loop {
+            let x: F = rng.sample(OpenClosed01);
+            if x < F::one() {
+                break x;
+            }
+        };
         self.location + self.scale * (-x.ln()).powf(-self.shape.recip())
     }
 }
